@@ -22,7 +22,7 @@ What the primitives stand for (Python side, see the extractor for the exact synt
                 (`errorhandler.py:95-103`), or a literal `raise xml.dom.X`
 * `mayRaise`    a sub-parser / child constructor / child setter working on the *new* content: raises or
                 not — decided by the outcome sequence
-* `choice`, `loop`, `havoc` take their decision from the outcome sequence as well
+* `choice`, `loop body els` (Python `for/while … else`), `havoc` take their decision from the outcome sequence as well
 * `setFlag/ifFlag` local boolean flags such as `wellformed` in `CSSStyleSheet._setCssText`
 * `tryCatch b h`   `try: b  except xml.dom.DOMException: h`
 * `tryFinally b f` `try: b  finally: f`
@@ -52,7 +52,7 @@ inductive Stmt where
   | ifFlag (b : Flag) (t e : Stmt)
   | seq (a b : Stmt)
   | choice (a b : Stmt)
-  | loop (body : Stmt)
+  | loop (body els : Stmt)
   | tryCatch (body handler : Stmt)
   | tryFinally (body fin : Stmt)
   | scope (body : Stmt)
@@ -152,16 +152,16 @@ def run (fuel : Nat) (sc : Stmt) (st : St) (os : Outcomes) : Res :=
     | .choice a b =>
       let o := nextOutcome os
       if o.1 then run fuel a st o.2 else run fuel b st o.2
-    | .loop body =>
+    | .loop body els =>
       let o := nextOutcome os
       if o.1 then
         let r := run fuel body st o.2
         match r.exit with
-        | .norm => run fuel (.loop body) r.st r.os
-        | .cont => run fuel (.loop body) r.st r.os
+        | .norm => run fuel (.loop body els) r.st r.os
+        | .cont => run fuel (.loop body els) r.st r.os
         | .brk => ⟨.norm, r.st, r.os⟩
         | _ => r
-      else ⟨.norm, st, o.2⟩
+      else run fuel els st o.2
     | .tryCatch body h =>
       let r := run fuel body st os
       match r.exit with
@@ -195,18 +195,19 @@ structure Abs where
   fresh : List Field            -- certainly holds an object created after entry (so no backup aliases it)
   known : List (Flag × Bool)
   nro : Bool                    -- the read-only guard has been passed: the object is certainly not read-only
+  isro : Bool                   -- the object is certainly read-only (entry assumption of the T11.3 analysis)
   deriving Repr, DecidableEq, Inhabited
 
 def Abs.meet (a b : Abs) : Abs :=
   ⟨a.clean.filter (· ∈ b.clean), a.valid.filter (· ∈ b.valid), a.fresh.filter (· ∈ b.fresh),
-   a.known.filter (· ∈ b.known), a.nro && b.nro⟩
+   a.known.filter (· ∈ b.known), a.nro && b.nro, a.isro && b.isro⟩
 
 /-- `a ⊑ b`: everything `a` claims, `b` claims too (so `a` is the weaker, safer description) -/
 def Abs.le (a b : Abs) : Bool :=
   a.clean.all (· ∈ b.clean) && a.valid.all (· ∈ b.valid) && a.fresh.all (· ∈ b.fresh) &&
-  a.known.all (· ∈ b.known) && (!a.nro || b.nro)
+  a.known.all (· ∈ b.known) && (!a.nro || b.nro) && (!a.isro || b.isro)
 
-def Abs.bot : Abs := ⟨[], [], [], [], false⟩
+def Abs.bot : Abs := ⟨[], [], [], [], false, false⟩
 
 def omeet : Option Abs → Option Abs → Option Abs
   | none, b => b
@@ -288,7 +289,9 @@ def post (sc : Stmt) (a : Abs) : Post :=
   | .restore f =>
     { norm := some { a with clean := if f ∈ a.valid then f :: a.clean else a.clean.filter (· ≠ f),
                             fresh := a.fresh.filter (· ≠ f) } }
-  | .guard => if a.nro then { norm := some a } else { norm := some { a with nro := true }, roExc := some a }
+  | .guard =>
+    if a.isro then { roExc := some a }
+    else if a.nro then { norm := some a } else { norm := some { a with nro := true }, roExc := some a }
   | .raise => { exc := some a }
   | .mayRaise => { norm := some a, exc := some a }
   | .ret => { ret := some a }
@@ -303,12 +306,12 @@ def post (sc : Stmt) (a : Abs) : Post :=
     | none => (post t a).join (post e a)
   | .seq s t => (post s a).bind (post t)
   | .choice s t => (post s a).join (post t a)
-  | .loop body =>
+  | .loop body els =>
     let i0 := loopInv (post body) a 8
     let i := if i0.le a && invStable (post body) i0 then i0 else Abs.bot
     let p := post body i
-    -- the loop ends normally from the invariant (no more iterations) or through `break`
-    { norm := omeet (some i) p.brk, ret := p.ret, exc := p.exc, roExc := p.roExc }
+    -- the loop ends through `break` (normally, `else` skipped) or, from the invariant, by exhaustion: `else` runs
+    Post.join { norm := p.brk, ret := p.ret, exc := p.exc, roExc := p.roExc } (post els i)
   | .tryCatch body h =>
     let p := post body a
     let q := match omeet p.exc p.roExc with
@@ -334,7 +337,10 @@ structure Script where
   body : Stmt
   deriving Repr, Inhabited
 
-def Abs.entry (fs : List Field) : Abs := ⟨fs, [], [], [], false⟩
+def Abs.entry (fs : List Field) : Abs := ⟨fs, [], [], [], false, false⟩
+
+/-- entry state of a read-only object -/
+def Abs.entryRO (fs : List Field) : Abs := ⟨fs, [], [], [], false, true⟩
 
 /-- every field of the object is certainly unchanged -/
 def Abs.allClean (fs : List Field) (a : Abs) : Bool := fs.all (· ∈ a.clean)
@@ -345,6 +351,15 @@ def Disciplined (fs : List Field) (sc : Stmt) : Bool :=
   let p := post sc (Abs.entry fs)
   (match p.exc with | none => true | some a => a.allClean fs) &&
   (match p.roExc with | none => true | some a => a.allClean fs)
+
+def okClean (fs : List Field) (o : Option Abs) : Bool :=
+  match o with | none => true | some a => a.allClean fs
+
+/-- **Read-only safety**: started on a read-only object, no way of ending leaves a field changed. -/
+def ReadonlySafe (fs : List Field) (sc : Stmt) : Bool :=
+  let p := post sc (Abs.entryRO fs)
+  okClean fs p.norm && okClean fs p.ret && okClean fs p.brk && okClean fs p.cont && okClean fs p.exc &&
+  okClean fs p.roExc
 
 /-- fields that a path ending with a DOM exception may leave changed (empty iff disciplined) — used to
 name the culprit fields of an undisciplined script -/
@@ -357,6 +372,7 @@ def dirtyOnExc (fs : List Field) (sc : Stmt) : List Field :=
 /-- the read-only guard is the first thing the script does (syntactic) -/
 def guardedFirst : Stmt → Bool
   | .guard => true
+  | .seq (.mark _) b => guardedFirst b
   | .seq a _ => guardedFirst a
   | .scope a => guardedFirst a
   | _ => false
